@@ -9,6 +9,7 @@ package tool_test
 // had to change or had to stay.
 
 import (
+	"syscall"
 	"fmt"
 	"go/token"
 	"os"
@@ -85,7 +86,11 @@ func (c36) NewRun(plan *simrt.Source, job *harn.Job) harn.Run {
 	kinds := []string{"create", "create", "rewrite", "rewrite", "append", "truncate", "touch", "touch", "rename", "delete", "mkdir", "subfile",
 		"chmod", "file-to-dir", "dir-to-file", "huge", "epoch", "far-future", "empty",
 		// another process changes ONE file while the hash is being computed
-		"during:delete", "during:hide", "during:create", "during:touch"}
+		"during:delete", "during:hide", "during:create", "during:touch",
+		// the hash is asked for while the directory cannot be listed (an I/O error,
+		// or the directory moved away and back): what it returns then is not
+		// judged, but it must not disturb the hashes that follow
+		"readdir-fails", "dir-away"}
 	for i := 0; i < n; i++ {
 		s := step{Kind: kinds[plan.Draw(len(kinds))], Name: name(), Name2: name(), Size: plan.Draw(40), Clock: plan.Draw(len(clockSteps))}
 		r.steps = append(r.steps, s)
@@ -395,6 +400,24 @@ func (r *c36run) runSeq(sim *simrt.Sim) {
 		}
 		if r.failure != nil {
 			break
+		}
+		switch st.Kind {
+		case "readdir-fails":
+			simos.Install(&simos.Hooks{Read: func(kind, path string) error {
+				if kind == "readdir" {
+					res.Faults["readdir-error"]++
+					return syscall.EIO
+				}
+				return nil
+			}})
+			imp.PkgHash(pkgPath, r.self)
+			simos.Install(nil)
+		case "dir-away":
+			if os.Rename(pkgDir, pkgDir+".away") == nil {
+				imp.PkgHash(pkgPath, r.self)
+				res.Faults["directory-away-during-hash"]++
+				os.Rename(pkgDir+".away", pkgDir)
+			}
 		}
 		if strings.HasPrefix(st.Kind, "during:") {
 			// The change happens WHILE PkgHash runs: at a seeded point between its
